@@ -336,7 +336,8 @@ pub fn limits_events(case: &Value, out: &mut Vec<Value>) {
             Value::String(s) if s == "-inf" => Some(f64::NEG_INFINITY),
             g => Some(g["n"].as_i64().unwrap() as f64 / g["d"].as_i64().unwrap() as f64),
         };
-        let limit = opt["limit_ns"].as_u64().map(std::time::Duration::from_nanos);
+        // 2e9 ns stands for the largest representable limit
+        let limit = opt["limit_ns"].as_u64().map(|ns| if ns == 2_000_000_000 { std::time::Duration::MAX } else { std::time::Duration::from_nanos(ns) });
         let options = rooc::MilpOptions { mip_gap: gap, time_limit: limit };
         let lmc = lm.clone();
         let via_builder = opt["builder"].as_bool().unwrap_or(false);
